@@ -99,7 +99,9 @@ class StmtExec(Exec):
         (for exceptional exits: the prefix yielded before the exception)."""
         args, kwargs = self.eval_args(node, st)
         recv = None
-        if callee.is_method:
+        if getattr(callee, "callable_recv", False):
+            args = [self.ev(node.func, st)] + args
+        elif callee.is_method:
             if isinstance(node.func, ast.Attribute):
                 recv = self.ev(node.func.value, st)
             args = [recv] + args
